@@ -1,5 +1,5 @@
 (* Dispatch.v — one Gallina entry point for both evaluators: a protocol line in, a result line out. *)
-From MRS Require Import Model.Base Model.OpsAddress Model.OpsAmount Model.OpsBasic Model.OpsCodec Model.OpsCurve Model.OpsHash.
+From MRS Require Import Model.Base Model.OpsAddress Model.OpsAmount Model.OpsBasic Model.OpsCodec Model.OpsCurve Model.OpsExtra Model.OpsHash.
 From Coq Require Import String Ascii.
 Open Scope string_scope.
 
@@ -13,6 +13,7 @@ Definition all_ops : list (string -> list string -> option string) :=
     ops_basic;
     ops_codec;
     ops_curve;
+    ops_extra;
     ops_hash ].
 
 Definition run_line (line : string) : string :=
